@@ -900,8 +900,18 @@ func loopConsumes(info *types.Info, body *ast.BlockStmt, readers map[string]bool
 			if x.Init != nil && hasRead(x.Init) && returns(x.Body) {
 				readSeen, checked = true, true
 			}
-			if readSeen && strings.Contains(core.ExprString(x.Cond), "err != nil") && returns(x.Body) {
-				checked = true
+			if readSeen && returns(x.Body) {
+				// a non-nil test of an error variable
+				ast.Inspect(x.Cond, func(m ast.Node) bool {
+					if e, isE := m.(ast.Expr); isE {
+						if v, eq, isNil := core.IsNilCheck(info, e); isNil && !eq {
+							if t := info.TypeOf(v); t != nil && t.String() == "error" {
+								checked = true
+							}
+						}
+					}
+					return true
+				})
 			}
 		default:
 			if hasRead(st) {
